@@ -32,7 +32,8 @@ func connInv(c *Conn) bool {
 	if c.closed == nil || c.readMu.ch == nil || c.writeFrameMu.ch == nil || mw.mu.ch == nil || mw.writeMu.ch == nil || c.readTimeout == nil || c.writeTimeout == nil {
 		return false
 	}
-	if c.br == nil || c.bw == nil || c.activePings == nil {
+	// c.br is nil on a client after close(); functions that read require it separately
+	if c.bw == nil || c.activePings == nil {
 		return false
 	}
 	if mr.payloadLength < 0 {
@@ -128,4 +129,11 @@ func specWriteInv(c *Conn) bool {
 // relies on, together with "no lock of the write side is held by this goroutine".
 func connReady(c *Conn) bool {
 	return connInv(c) && specWriteInv(c) && c.rwc != nil
+}
+
+// connIdle: connReady and, unless the connection is (known to be) closed, this
+// goroutine holds none of the write-side locks. After close() the closing goroutine
+// keeps writeMu (and on a client writeFrameMu) force-locked for good.
+func connIdle(c *Conn) bool {
+	return connReady(c) && (gvcClosed(c.closed) || (!gvcHeld(c.writeFrameMu.ch) && !gvcHeld(c.msgWriter.writeMu.ch)))
 }
